@@ -1618,6 +1618,550 @@ def run_shape_shard(shard, ctx):
 
 
 # ---------------------------------------------------------------------------
+# object reuse: one encoding / data / container object used for a second array
+# ---------------------------------------------------------------------------
+# Every auto-determined parameter (ByteArray.type, Delta.src_type/origin, RunLength.src_type/src_size,
+# IntegerPacking.src_size/is_unsigned, FixedPoint/IntervalQuantization.src_type, StringArray.strings) is
+# documented as "determined from the data the first time encode() is called".  An object that has seen
+# array A is therefore bound to A's parameters; when it is then given B it must refuse or reproduce B
+# exactly -- and when a fresh object would have determined the very same parameters from B (compared
+# with ==), refusal is not acceptable either.
+REUSE_INT = {
+    "i8": ("int8", [-128, 5, 5]),
+    "u8": ("uint8", [0, 255, 7]),
+    "i16run": ("int16", [300, 300, 300]),
+    "i32": ("int32", [70000, -1, -1]),
+    "i32pos": ("int32", [5, 6, 7]),
+    "u32": ("uint32", [4294967295, 0, 1]),
+    "i64": ("int64", [2147483647, 3, 3]),
+    "u16len2": ("uint16", [1, 2]),
+    "u8len1": ("uint8", [200]),
+    "i32empty": ("int32", []),
+    "f64ints": ("float64", [1.0, 2.0, 3.0]),
+}
+REUSE_FLOAT = {
+    "f32": ("float32", [1.5, -2.25, 0.0]),
+    "f64": ("float64", [1234.5678, 0.001, -3.0]),
+    "f64b": ("float64", [0.5, 0.25, 4.75]),
+    "f64len2": ("float64", [1e6, 2e6]),
+    "f64nan": ("float64", [math.nan, 1.0, 2.0]),
+    "f32len1": ("float32", [100.125]),
+    "f64empty": ("float64", []),
+    "i32": ("int32", [1, 2, 3]),
+}
+REUSE_STR = {
+    "aba": ["a", "b", "a"],
+    "bc": ["b", "c"],
+    "uni": ["", "é", "é"],
+    "a": ["a"],
+    "empty": [],
+    "long": ["x" * 300, "a", "b"],
+    "cab": ["c", "a", "b"],
+}
+_RS = ["D", "R", "P1a", "P2a"]
+REUSE_INT_CHAINS = ([[B()]] + [[SYMBOLS[s], B()] for s in _RS]
+                    + [[SYMBOLS[a], SYMBOLS[b], B()] for a in _RS for b in _RS])
+REUSE_FLOAT_CHAINS = [
+    [B()],
+    [F(1000), B()],
+    [F(10), D(), B()],
+    [F(1000), R(), B()],
+    [F(100), P(2), B()],
+    [Q(-5.0, 5.0, 101), B()],
+    [Q(-5.0, 5.0, 101), P(1), B()],
+]
+REUSE_STR_SPECS = {
+    "default": ["S", {"strings": None, "data": None, "offset": None}],
+    "rle": ["S", {"strings": None, "data": [R(), B()], "offset": None}],
+    "deep": ["S", {"strings": None, "data": [D(), R(), P(1), B()], "offset": [D(), B()]}],
+    "auto_types": ["S", {"strings": None, "data": [B()], "offset": [P(1), B()]}],
+}
+
+
+def reuse_array(kind, key):
+    if kind == "str":
+        vals = REUSE_STR[key]
+        return np.array(vals, dtype="U%d" % max([len(s) for s in vals] + [1])), vals
+    dtype, vals = (REUSE_INT if kind == "int" else REUSE_FLOAT)[key]
+    return np.array(vals, dtype=dtype), vals
+
+
+def reuse_match(arr, got, chain):
+    """True when `got` reproduces the ndarray `arr`: integers / strings exactly (the dtype may differ), floats
+    within the precision of the lossy head of the chain (none: bit-exact, or nearest float32 after narrowing)."""
+    if not isinstance(got, np.ndarray) or got.ndim != 1 or len(got) != len(arr):
+        return False
+    if arr.dtype.kind == "U":
+        return got.dtype.kind == "U" and got.tolist() == arr.tolist()
+    if got.dtype.kind not in "iuf":
+        return False
+    head, p = chain[0]
+    for x, d in zip(arr.tolist(), got.tolist()):
+        if isinstance(x, int):
+            if d != x:
+                return False
+        elif x != x:
+            if d == d:
+                return False
+        elif head == "F":
+            if d != d or abs(d - x) > 0.5 / p["factor"] * (1 + 1e-9) + 4 * M.ulp(max(abs(x), abs(d)), 32):
+                return False
+        elif head == "Q":
+            lo, hi = p["min"], p["max"]
+            step = (hi - lo) / (p["num_steps"] - 1)
+            if lo <= x <= hi and (d != d or abs(d - x) > step * (1 + 1e-9) + 4 * M.ulp(max(abs(x), abs(lo), abs(hi)), 32)):
+                return False
+        elif d != x and d != f32(x):
+            return False
+    return True
+
+
+def reuse_roundtrip(arr, encs):
+    """encode + decode with the given objects -> ('ok', decoded) / ('exc', phase, class)."""
+    E = _enc()["E"]
+    try:
+        data = E.encode_stepwise(arr, encs)
+    except Exception as e:  # noqa: BLE001
+        return ("exc", "encode", type(e).__name__)
+    try:
+        return ("ok", E.decode_stepwise(data, encs), data)
+    except Exception as e:  # noqa: BLE001
+        return ("exc", "decode", type(e).__name__)
+
+
+def reuse_file_trip(arr, encs):
+    env = _enc()
+    pdbx, msgpack = env["pdbx"], env["msgpack"]
+    try:
+        packed = msgpack.packb(pdbx.BinaryCIFData(arr, encs).serialize(), use_bin_type=True,
+                               default=env["encode_numpy"])
+    except Exception as e:  # noqa: BLE001
+        return ("exc", "encode", type(e).__name__)
+    try:
+        return ("ok", pdbx.BinaryCIFData.deserialize(msgpack.unpackb(packed, use_list=True, raw=False)).array)
+    except Exception as e:  # noqa: BLE001
+        return ("exc", "decode", type(e).__name__)
+
+
+def same_encodings(e1, e2):
+    try:
+        return bool(e1 == e2)
+    except Exception:  # noqa: BLE001
+        return False
+
+
+def reuse_encode_case(ctx, kind, ka, kb, chain, cname, source="fresh"):
+    """(a) one chain object: encode A, then B.  source 'compress': the chain is the encoding list that
+    compress() chose for A."""
+    case = {"k": "reuse", "f": "encode", "kind": kind, "a": ka, "b": kb, "chain": cname, "source": source}
+    if not ctx.journal(case):
+        return
+    pdbx = _enc()["pdbx"]
+    arr_a, vals_a = reuse_array(kind, ka)
+    arr_b, vals_b = reuse_array(kind, kb)
+    if source == "compress":
+        try:
+            r = with_cpu_limit(CPU_LIMIT, pdbx.compress, pdbx.BinaryCIFData(arr_a), 1e-6)
+        except Exception:  # noqa: BLE001  (empty arrays: unspecified, see the compress family)
+            ctx.count("unspecified")
+            ctx.ev(1, 0)
+            return
+        if r[0] != "ok":
+            ctx.violation("reuse:compress|did_not_terminate|%s" % kind, "compress() exceeded the CPU limit", case)
+            ctx.ev(1, 1)
+            return
+        used = r[1].encoding
+        spec_chain = [["C", {}]]
+        mk = None
+    else:
+        spec_chain = chain
+        used = [build(s) for s in chain]
+        mk = lambda: [build(s) for s in chain]  # noqa: E731
+    if mk is not None:
+        fresh = mk()
+        fresh_b = reuse_roundtrip(arr_b, fresh)
+        fresh_ok = fresh_b[0] == "ok" and reuse_match(arr_b, fresh_b[1], chain)
+        first = reuse_roundtrip(arr_a, used)
+        accept = fresh_ok and first[0] == "ok" and same_encodings(used, fresh)
+        judge_chain = chain
+    else:
+        # the list compress() returned has already encoded A; a fresh compress() of B tells which list B gets
+        try:
+            r2 = with_cpu_limit(CPU_LIMIT, pdbx.compress, pdbx.BinaryCIFData(arr_b), 1e-6)
+            fresh = r2[1].encoding if r2[0] == "ok" else None
+        except Exception:  # noqa: BLE001
+            fresh = None
+        accept = fresh is not None and same_encodings(used, fresh)
+        judge_chain = ([F(getattr(used[0], "factor", 1))] if type(used[0]).__name__ == "FixedPointEncoding"
+                       else [B()])
+    fails = []
+    compared = refused = False
+    if kind == "float" and source == "fresh":
+        cname = KIND_NAME[chain[0][0]]  # the integer tail is the business of the integer chains
+    for path, res in (("direct", reuse_roundtrip(arr_b, used)), ("file", reuse_file_trip(arr_b, used))):
+        if res[0] == "exc":
+            if accept:
+                fails.append((path, "reuse:encode[%s]" % cname, "%s_raised_%s" % (res[1], res[2]), "same_parameters",
+                              "second array determines the same parameters, yet the reused object refused it",
+                              vals_b if kind != "float" else enc_floats(vals_b), list(res)))
+            else:
+                refused = True
+            continue
+        if reuse_match(arr_b, res[1], judge_chain):
+            compared = True
+            continue
+        fails.append((path, "reuse:encode[%s]" % cname, "second_array_silently_altered",
+                      "same_parameters" if accept else "other_parameters",
+                      "object bound to the parameters of a first array returned a different second array",
+                      "exception or %r" % (vals_b if kind != "float" else enc_floats(vals_b),),
+                      repr(res[1])[:200]))
+    report(ctx, case, fails)
+    ctx.count("accepted" if accept else "refusable")
+    if refused:
+        ctx.count("refused_observed")
+    nt = bool(vals_b) and (compared or refused)
+    ctx.ev(1, 1 if nt else 0)
+    ctx.outcome((ka, kb, cname, compared, refused))
+    if nt and refused and len(ctx.samples) < 1 and source == "fresh" and len(chain) == 3:
+        ctx.sample({**case, "result": "second array refused"})
+
+
+def reuse_decode_case(ctx, kind, ka, kb, chain, cname):
+    """(b) one object decodes the encoded form of A, of B and of A again.  Run when fresh objects determine
+    equal parameters from A and B; plus a deserialised copy, plus RunLength without src_size."""
+    case = {"k": "reuse", "f": "decode", "kind": kind, "a": ka, "b": kb, "chain": cname}
+    if not ctx.journal(case):
+        return
+    E = _enc()["E"]
+    arr_a, vals_a = reuse_array(kind, ka)
+    arr_b, vals_b = reuse_array(kind, kb)
+    e1, e2 = [build(s) for s in chain], [build(s) for s in chain]
+    ra, rb = reuse_roundtrip(arr_a, e1), reuse_roundtrip(arr_b, e2)
+    if ra[0] != "ok" or rb[0] != "ok":
+        ctx.count("decode_reuse_not_applicable")
+        return
+    decoders = []
+    if same_encodings(e1, e2):
+        decoders.append(("same_object", e1))
+        try:
+            decoders.append(("deserialised", [E.deserialize_encoding(x.serialize()) for x in e1]))
+        except Exception as ex:  # noqa: BLE001
+            ctx.violation("reuse:decode[%s]|deserialize_raised_%s|%s" % (cname, type(ex).__name__, kind),
+                          "encoding could not be re-created from its serialised form", case)
+    if chain[0][0] == "R" and len(chain) == 2 and e1[0].src_type == e2[0].src_type and e1[1].type == e2[1].type:
+        decoders.append(("run_length_without_src_size", [E.RunLengthEncoding(src_type=e1[0].src_type),
+                                                         E.ByteArrayEncoding(e1[1].type)]))
+    if not decoders:
+        ctx.count("decode_reuse_not_applicable")
+        return
+    for dname, dec in decoders:
+        for step, (data, vals, src) in enumerate(((ra[2], vals_a, arr_a), (rb[2], vals_b, arr_b), (ra[2], vals_a, arr_a))):
+            try:
+                got = E.decode_stepwise(data, dec)
+                ok = reuse_match(src, got, chain)
+                obs = repr(got)[:200]
+            except Exception as ex:  # noqa: BLE001
+                ok, obs = False, "%s: %s" % (type(ex).__name__, str(ex)[:100])
+            if not ok:
+                ctx.violation("reuse:decode[%s]|%s_decode_%d_wrong|%s" % (cname, dname, step + 1, kind),
+                              "an encoding object that decodes several inputs returned a wrong array", case,
+                              expected=vals if kind != "float" else enc_floats(vals), observed=obs)
+                break
+    ctx.count("accepted")
+    ctx.ev(1, 1 if (vals_a and vals_b and ka != kb) else 0)
+    ctx.outcome(("dec", ka, kb, cname, len(decoders)))
+
+
+def reuse_inplace_case(ctx, kind, ka, kb, chain, cname):
+    """(c1) the array of a BinaryCIFData is overwritten in place between two serialize() calls."""
+    case = {"k": "reuse", "f": "inplace", "kind": kind, "a": ka, "b": kb, "chain": cname}
+    arr_a, vals_a = reuse_array(kind, ka)
+    arr_b, vals_b = reuse_array(kind, kb)
+    if arr_a.dtype != arr_b.dtype or len(arr_a) != len(arr_b) or not len(arr_a):
+        return
+    if not ctx.journal(case):
+        return
+    env = _enc()
+    pdbx, msgpack = env["pdbx"], env["msgpack"]
+    fresh = [build(s) for s in chain]
+    fresh_ok = reuse_roundtrip(arr_b, fresh)
+    fresh_ok = fresh_ok[0] == "ok" and reuse_match(arr_b, fresh_ok[1], chain)
+    d = pdbx.BinaryCIFData(arr_a.copy(), [build(s) for s in chain])
+    try:
+        d.serialize()
+        first_ok = True
+    except Exception:  # noqa: BLE001
+        first_ok = False
+    accept = fresh_ok and first_ok and same_encodings(d.encoding, fresh)
+    d.array[...] = arr_b
+    mode = obs = None
+    try:
+        packed = msgpack.packb(d.serialize(), use_bin_type=True, default=env["encode_numpy"])
+        got = pdbx.BinaryCIFData.deserialize(msgpack.unpackb(packed, use_list=True, raw=False)).array
+        if not reuse_match(arr_b, got, chain):
+            mode, obs = "stale_or_altered_content", repr(got)[:200]
+    except Exception as ex:  # noqa: BLE001
+        if accept:
+            mode, obs = "raised_%s" % type(ex).__name__, str(ex)[:100]
+        else:
+            ctx.count("refused_observed")
+    if mode:
+        ctx.violation("reuse:inplace[%s]|%s|%s" % (cname, mode, "same_parameters" if accept else "other_parameters"),
+                      "BinaryCIFData serialised again after its array was overwritten does not hold the new values",
+                      case, expected=vals_b if kind != "float" else enc_floats(vals_b), observed=obs)
+    ctx.count("accepted" if accept else "refusable")
+    ctx.ev(1, 1 if ka != kb else 0)
+    ctx.outcome(("inplace", ka, kb, cname, mode))
+
+
+def file_bytes(f):
+    bio = io.BytesIO()
+    f.write(bio)
+    return bio.getvalue()
+
+
+def reuse_container_case(ctx, kind, ka, kb, variant):
+    """(c2/c3) columns of a category are replaced (or overwritten in place) between two writes of one file
+    object; the same after the file has been read from bytes (lazy deserialisation, row count from the file)."""
+    case = {"k": "reuse", "f": "container", "kind": kind, "a": ka, "b": kb, "variant": variant}
+    if not ctx.journal(case):
+        return
+    pdbx = _enc()["pdbx"]
+    arr_a, vals_a = reuse_array(kind, ka)
+    arr_b, vals_b = reuse_array(kind, kb)
+    na, nb = len(arr_a), len(arr_b)
+
+    def col(arr, n, masked):
+        mask = None
+        if masked:
+            mask = pdbx.BinaryCIFData(np.array([i % 3 for i in range(n)], dtype=np.uint8),
+                                      [build(R()), build(B())] if n else None)
+        return pdbx.BinaryCIFColumn(pdbx.BinaryCIFData(arr), mask)
+
+    masked = variant.endswith("masked")
+    try:
+        cat = pdbx.BinaryCIFCategory({"x": col(arr_a, na, masked), "y": np.arange(na, dtype=np.int32)})
+        f = pdbx.BinaryCIFFile({"blk": pdbx.BinaryCIFBlock({"cat": cat})})
+        raw1 = file_bytes(f)
+        if variant.startswith("reread"):
+            f = pdbx.BinaryCIFFile.read(io.BytesIO(raw1))
+            if variant.startswith("reread_touched"):
+                f["blk"]["cat"]["x"].as_array()  # deserialise before replacing
+    except Exception as ex:  # noqa: BLE001
+        ctx.violation("reuse:container|first_write_raised_%s|%s" % (type(ex).__name__, kind),
+                      "writing a plain file raised", case, observed=str(ex)[:150])
+        ctx.ev(1, 0)
+        return
+    expect_refusal = inplace_may_refuse = False
+    phase = "replace"
+    try:
+        cat = f["blk"]["cat"]
+        if variant.startswith("one_column"):
+            cat["x"] = col(arr_b, nb, masked)
+            expect_refusal = nb != na  # documented: all columns must have the same length
+        elif variant.startswith("inplace"):
+            if arr_a.dtype != arr_b.dtype or na != nb or not na:
+                return
+            bound = cat["x"].data.encoding
+            probe = pdbx.BinaryCIFData(arr_b)
+            probe.serialize()
+            inplace_may_refuse = not same_encodings(bound, probe.encoding)
+            cat["x"].data.array[...] = arr_b
+            if masked:
+                cat["x"].mask.array[...] = np.array([(i + 1) % 3 for i in range(nb)], dtype=np.uint8)
+        else:
+            cat["x"] = col(arr_b, nb, masked)
+            cat["y"] = np.arange(nb, dtype=np.int32)
+        phase = "second_write"
+        raw2 = file_bytes(f)
+        phase = "read"
+        g = pdbx.BinaryCIFFile.read(io.BytesIO(raw2))
+        gc_ = g["blk"]["cat"]
+        gx, gy, rc = gc_["x"].data.array, gc_["y"].as_array(), gc_.row_count
+        gm = None if gc_["x"].mask is None else gc_["x"].mask.array.tolist()
+    except Exception as ex:  # noqa: BLE001
+        if expect_refusal or inplace_may_refuse:
+            ctx.count("refusable")
+            ctx.count("refused_observed")
+            ctx.ev(1, 1)
+        elif nb == 0 and masked:
+            ctx.count("unspecified")  # RunLength of an empty mask
+            ctx.ev(1, 0)
+        else:
+            ctx.violation("reuse:container[%s]|%s_raised_%s|%s" % (variant, phase, type(ex).__name__, kind),
+                          "a file object whose columns were replaced could not be written/read again", case,
+                          observed=str(ex)[:150])
+            ctx.ev(1, 1)
+        return
+    if expect_refusal:
+        ctx.violation("reuse:container[%s]|columns_of_unequal_length_written|%s" % (variant, kind),
+                      "category with columns of different lengths was written without an error", case,
+                      observed=[len(gx), len(gy), rc])
+        ctx.ev(1, 1)
+        return
+    want_mask = None
+    if masked:
+        want_mask = [(i + 1) % 3 if variant.startswith("inplace") else i % 3 for i in range(nb)]
+    n_want = nb if not variant.startswith("one_column") else nb
+    ok = (reuse_match(arr_b, gx, [B()]) and gy.tolist() == list(range(n_want)) and rc == n_want
+          and (gm == want_mask))
+    if not ok:
+        ctx.violation("reuse:container[%s]|stale_content_after_replacement|%s" % (variant, kind),
+                      "second write of a modified file object does not hold the new columns / row count", case,
+                      expected=[vals_b if kind != "float" else enc_floats(vals_b), n_want, want_mask],
+                      observed=[repr(gx)[:120], gy.tolist(), rc, gm])
+    ctx.count("accepted")
+    ctx.ev(1, 1 if ka != kb else 0)
+    ctx.outcome(("cont", ka, kb, variant, raw2))
+
+
+def reuse_compress_twice_case(ctx, kind, key, tol, level):
+    """(c4) compress(compress(x)), compress(read(write(compress(x)))): both read back as x (floats: within the
+    tolerance per lossy pass), and the first result is still writable and correct afterwards."""
+    case = {"k": "reuse", "f": "compress_twice", "kind": kind, "a": key, "tol": tol, "level": level}
+    if not ctx.journal(case):
+        return
+    env = _enc()
+    pdbx = env["pdbx"]
+    arr, vals = reuse_array(kind, key)
+
+    def wrap(d):
+        if level == "data":
+            return d
+        f = pdbx.BinaryCIFFile({"blk": pdbx.BinaryCIFBlock({"cat": pdbx.BinaryCIFCategory(
+            {"x": pdbx.BinaryCIFColumn(d, pdbx.BinaryCIFData(np.zeros(len(arr), dtype=np.uint8))),
+             "y": np.arange(len(arr), dtype=np.int32)})})})
+        return f
+
+    def readback(obj):
+        if level == "data":
+            packed = env["msgpack"].packb(obj.serialize(), use_bin_type=True, default=env["encode_numpy"])
+            d = pdbx.BinaryCIFData.deserialize(env["msgpack"].unpackb(packed, use_list=True, raw=False))
+            return d, d.array
+        g = pdbx.BinaryCIFFile.read(io.BytesIO(file_bytes(obj)))
+        return g, g["blk"]["cat"]["x"].data.array
+
+    def good(got, passes):
+        if arr.dtype.kind != "f":
+            return reuse_match(arr, got, [B()])
+        g = as_float_list(got)
+        if g is None or len(g) != len(vals):
+            return False
+        for x, d in zip(vals, g):
+            if x != x:
+                if d == d:
+                    return False
+            elif x == 0:
+                if d != 0:
+                    return False
+            elif abs(d - x) > passes * tol * abs(x) * (1 + 1e-6) + 4 * M.ulp(x, M.DTYPE_TC[str(arr.dtype)]):
+                return False
+        return True
+
+    def run():
+        out = []
+        c1 = pdbx.compress(wrap(pdbx.BinaryCIFData(arr)), tol)
+        o1, a1 = readback(c1)
+        out.append(("once", good(a1, 1), a1))
+        c2 = pdbx.compress(c1, tol)
+        out.append(("twice", good(readback(c2)[1], 1), None))
+        c3 = pdbx.compress(o1, tol)
+        out.append(("after_reading", good(readback(c3)[1], 2), None))
+        out.append(("first_result_afterwards", good(readback(c1)[1], 1), None))
+        return out
+
+    try:
+        r = with_cpu_limit(4 * CPU_LIMIT, run)
+    except Exception as ex:  # noqa: BLE001
+        if not vals:
+            ctx.count("unspecified")
+            ctx.ev(1, 0)
+            return
+        ctx.violation("reuse:compress_twice|raised_%s|%s,%s" % (type(ex).__name__, kind, level),
+                      "repeated compress() of a representable array raised", case, observed=str(ex)[:150])
+        ctx.ev(1, 1)
+        return
+    if r[0] != "ok":
+        ctx.violation("reuse:compress_twice|did_not_terminate|%s,%s" % (kind, level), "CPU limit exceeded", case)
+        ctx.ev(1, 1)
+        return
+    for name, ok, _ in r[1]:
+        if not ok:
+            ctx.violation("reuse:compress_twice|%s_differs|%s,%s" % (name, kind, level),
+                          "repeated compression does not read back as the original array", case,
+                          expected=vals if kind != "float" else enc_floats(vals))
+            break
+    ctx.count("accepted")
+    ctx.ev(1, 1 if vals else 0)
+    ctx.outcome(("c2", kind, key, tol, level))
+
+
+CONTAINER_VARIANTS = ["all_columns", "all_columns_masked", "one_column", "inplace", "inplace_masked",
+                      "reread_all_columns", "reread_touched_all_columns_masked", "reread_one_column"]
+
+
+def reuse_sets(kind):
+    if kind == "int":
+        return REUSE_INT, REUSE_INT_CHAINS
+    if kind == "float":
+        return REUSE_FLOAT, REUSE_FLOAT_CHAINS
+    return REUSE_STR, [[REUSE_STR_SPECS[n]] for n in REUSE_STR_SPECS]
+
+
+def reuse_chain_name(kind, chain):
+    if kind == "str":
+        return [n for n, s in REUSE_STR_SPECS.items() if s is chain[0]][0]
+    return "+".join(("%s%s" % (k, p.get("byte_count") or p.get("factor") or "")) for k, p in chain)
+
+
+def run_reuse_shard(shard, ctx):
+    kind, part, parts = shard["kind"], shard["part"], shard["parts"]
+    arrays, chains = reuse_sets(kind)
+    idx = 0
+    for chain in chains:
+        cname = reuse_chain_name(kind, chain)
+        for ka in arrays:
+            if kind == "int" and REUSE_INT[ka][0].startswith("float"):
+                continue  # Delta/RunLength/IntegerPacking document integer input: floats only as second array
+            for kb in arrays:
+                idx += 1
+                if idx % parts != part:
+                    continue
+                reuse_encode_case(ctx, kind, ka, kb, chain, cname)
+                reuse_decode_case(ctx, kind, ka, kb, chain, cname)
+                reuse_inplace_case(ctx, kind, ka, kb, chain, cname)
+    for ka in arrays:
+        for kb in arrays:
+            idx += 1
+            if idx % parts != part:
+                continue
+            reuse_encode_case(ctx, kind, ka, kb, None, "compress", source="compress")
+            for variant in CONTAINER_VARIANTS:
+                reuse_container_case(ctx, kind, ka, kb, variant)
+        for level in ("data", "file"):
+            for tol in ([1e-6] if kind != "float" else [1e-3, 1e-6]):
+                idx += 1
+                if idx % parts != part:
+                    continue
+                reuse_compress_twice_case(ctx, kind, ka, tol, level)
+
+
+def reuse_replay(case, ctx):
+    kind = case["kind"]
+    arrays, chains = reuse_sets(kind)
+    f = case["f"]
+    if f == "container":
+        return reuse_container_case(ctx, kind, case["a"], case["b"], case["variant"])
+    if f == "compress_twice":
+        return reuse_compress_twice_case(ctx, kind, case["a"], case["tol"], case["level"])
+    if case.get("source") == "compress":
+        return reuse_encode_case(ctx, kind, case["a"], case["b"], None, "compress", source="compress")
+    chain = [c for c in chains if reuse_chain_name(kind, c) == case["chain"]][0]
+    fn = {"encode": reuse_encode_case, "decode": reuse_decode_case, "inplace": reuse_inplace_case}[f]
+    fn(ctx, kind, case["a"], case["b"], chain, case["chain"])
+
+
+# ---------------------------------------------------------------------------
 # contract
 # ---------------------------------------------------------------------------
 def bounds(tier):
@@ -1686,6 +2230,8 @@ def shards(tier, seed):
         for lv in LEVELS:
             out.append({"s": "file", "data": dn, "level": lv})
     add(2 if q else 8, s="shape")
+    for kind in ("int", "float", "str"):
+        add(4 if kind == "int" else 2, s="reuse", kind=kind)
     # the seed rotates the processing order inside the leading (integer) block only
     n_int = sum(1 for x in out if x["s"] == "int")
     k = seed % n_int
@@ -1718,6 +2264,8 @@ def _run_shard(shard, ctx):
         run_file_shard(shard, ctx)
     elif s == "shape":
         run_shape_shard(shard, ctx)
+    elif s == "reuse":
+        run_reuse_shard(shard, ctx)
     else:
         raise ValueError(shard)
 
@@ -1743,6 +2291,8 @@ def replay(case, ctx):
         file_case(ctx, case["data"], case["n"], case["mask"], case["menc"], case["level"], case["compress"])
     elif k == "shape":
         shapes_case(ctx, case["shape"])
+    elif k == "reuse":
+        reuse_replay(case, ctx)
     else:
         raise ValueError(case)
 
